@@ -48,6 +48,10 @@ structure Sys (X T Wd : Type) where
   /-- loaders built so far by `fresh` -/
   nf : Nat
 
+/-- The user is iterating: iterator in hand, nothing pending. -/
+def Iterating {X T Wd : Type} (s : FState X T Wd) : Prop :=
+  s.iterator.isSome = true ∧ s.pending = none ∧ s.initForSd = false ∧ s.handle = true
+
 def FState.init {X T Wd : Type} (w : Wd) : FState X T Wd := ⟨w, none, none, false, false⟩
 
 def Sys.init {X T Wd : Type} (w : Wd) : Sys X T Wd := ⟨FState.init w, [], 0⟩
